@@ -148,8 +148,11 @@ func (s *verifInterop) end() {
 
 type verifEvents struct {
 	telemetry.NoOpEventsAPI
-	w *verifWorld
+	w         *verifWorld
+	requestID interop.RequestID // like the standalone events API: runtime-done lines carry the id published last
 }
+
+func (e *verifEvents) SetCurrentRequestID(id interop.RequestID) { e.requestID = id }
 
 func (e *verifEvents) SendInitStart(d interop.InitStartData) error {
 	e.w.note("platform", "initStart", string(d.Phase))
@@ -180,6 +183,7 @@ func (e *verifEvents) SendInvokeRuntimeDone(d interop.InvokeRuntimeDoneData) err
 	if d.ErrorType != nil {
 		et = *d.ErrorType
 	}
+	e.w.note("platform", "invokeRuntimeDoneID", string(e.requestID))
 	e.w.note("platform", "invokeRuntimeDone", d.Status+"/"+et)
 	return nil
 }
@@ -391,8 +395,10 @@ type verifWorld struct {
 	lastBody                                               map[string]string
 	rtBodies, rtArns, rtResponses, rtStatuses, rtDeadlines []string
 	slowInit                                               bool
+	rtIgnoresTerm                                          bool
 	holdWho                                                string
 	holding                                                bool
+	heldSince                                              int
 	onHold                                                 func(who, phase string)
 	extIDs                                                 []string // identifiers handed out to extensions, in order
 	extReportsOnShutdown                                   bool
@@ -791,6 +797,7 @@ func (w *verifWorld) RuntimeResponses() []string          { return w.rtResponses
 func (w *verifWorld) Statuses() []string                  { return w.rtStatuses }
 func (w *verifWorld) Deadlines() []string                 { return w.rtDeadlines }
 func (w *verifWorld) SetSlowInit(b bool)                  { w.slowInit = b }
+func (w *verifWorld) SetRuntimeIgnoresTerm(b bool)        { w.rtIgnoresTerm = b }
 func (w *verifWorld) ExtIDs() []string                    { return w.extIDs }
 func (w *verifWorld) SetExtReportsOnShutdown(b bool)      { w.extReportsOnShutdown = b }
 
@@ -842,6 +849,7 @@ func (w *verifWorld) plannedRuntime() func(p *verifProc) {
 func (w *verifWorld) plannedRuntimeK() func(p *verifProc, k int) {
 	return func(p *verifProc, k int) {
 		who := p.name
+		p.ignoreTerm = w.rtIgnoresTerm
 		var plan []int
 		if k < len(w.rtPlan) {
 			plan = w.rtPlan[k]
@@ -1012,6 +1020,8 @@ func (w *verifWorld) CheckEventGrammar() {
 			startsPerID[e.arg]++
 			verifAssert(startsPerID[e.arg] == 1, "exactly one invoke-start per dispatched invocation")
 			curInvoke, invokeStartSeq, nInvRtDone = e.arg, e.seq, 0
+		case "invokeRuntimeDoneID":
+			verifAssert(e.arg == curInvoke, "invoke-runtime-done carries the request id of the invocation it follows")
 		case "invokeRuntimeDone":
 			verifAssert(curInvoke != "", "invoke-runtime-done follows an invoke-start")
 			nInvRtDone++
